@@ -2,8 +2,8 @@ package main
 
 import (
 	"go/token"
-	"sort"
 	"go/types"
+	"sort"
 	"strings"
 
 	"golang.org/x/tools/go/ssa"
